@@ -3,6 +3,11 @@
 \* next and with which outcome) = scheduling scripts for the gate driver harness/cmd/life.
 EXTENDS Lifecycle, Json
 
+CONSTANT Target  \* "none", or the name of a situation at which the behaviour is emitted (directed scripts):
+                 \* "twofails": two start routines have failed in the Start pass while another one is still running
+CONSTANT Slow    \* modules whose callbacks return last: only when no callback of a faster module is still running
+                 \* (a random walk rarely keeps one callback running across several failures of others)
+
 VARIABLES hist, done, en0   \* en0: the enabled flags before Start (script header)
 gvars == <<vars, hist, done, en0>>
 
@@ -20,8 +25,18 @@ Label ==
     ELSE <<>>
 
 GenInit == Init /\ hist = <<>> /\ done = FALSE /\ en0 = enabled
-Terminal == mgr.op = "idle" /\ lastRet.op = "shutdown"
-GenStep == /\ ~done /\ Next /\ hist' = hist \o Label /\ done' = done /\ en0' = en0
+           /\ (Target = "twofails" => deps = [m \in Modules |-> {}])     \* all modules start concurrently
+TwoFails == /\ mgr.op = "start" /\ mgr.phase = "start" /\ fails >= 2
+            /\ \E m \in Modules : cb[m] = "start"
+            /\ Cardinality({i \in 1..Len(hist) : hist[i].op = "finish" /\ ~hist[i].ok /\
+                             \E j \in 1..(i - 1) : hist[j].op = "finish" /\ hist[j].m = hist[i].m /\ hist[j].ok}) >= 2
+Terminal == IF Target = "twofails" THEN TwoFails ELSE mgr.op = "idle" /\ lastRet.op = "shutdown"
+SlowOK == \A m \in Modules \cap Slow : (cb[m] # None /\ cb'[m] = None) =>
+              \A x \in Modules \ Slow : cb[x] = None
+\* directed generation: only start routines of the faster modules fail
+TargetOK == (Target = "twofails") =>
+              \A m \in Modules : (cb[m] # None /\ cb'[m] = None /\ <<m, FALSE>> \in reports') => (cb[m] = "start" /\ m \notin Slow)
+GenStep == /\ ~done /\ Next /\ SlowOK /\ TargetOK /\ hist' = hist \o Label /\ done' = done /\ en0' = en0
 GenEmit == /\ ~done /\ Terminal /\ done' = TRUE
            /\ PrintT(<<"@@", ToJson([n |-> N, mgmt |-> Mgmt, deps |-> [m \in Modules |-> deps[m]],
                                       enabled |-> [m \in Modules |-> en0[m]], steps |-> hist])>>)
